@@ -152,9 +152,27 @@ func field(ans, key string) string {
 	return ""
 }
 
+var longs = map[string]*C10Long{}
+
+// longPing: the session that stays open over the whole run of a server is still served after this script
+func longPing(c *Ctx, s *script, req string) {
+	key := s.kind + "," + s.param
+	l, ok := longs[key]
+	if !ok {
+		l = C10LongOpen(s.kind, s.param, []byte{0x09, 0x90, 0x00, 0x00, byte(len(longs)), 0x01})
+		longs[key] = l
+	}
+	if r := l.Ping(); r != "" && r != "reopened" {
+		c.Violate(Violation{Signature: "C10/" + s.kind + "/long-session",
+			What:  "a session that had been open since the server started was no longer served correctly after this script",
+			Input: req, Observed: Trunc(r, 900), Required: "the general response with the next platform serial"})
+	}
+}
+
 func run(c *Ctx, s *script) {
 	req := s.request()
 	ans := c.Do(req, s.nextK > 0)
+	defer longPing(c, s, req)
 	c.Count(s.kind + "/" + s.class)
 	for _, t := range strings.Fields(ans) {
 		if strings.HasPrefix(t, "k") && strings.Contains(t, "=") {
@@ -223,8 +241,8 @@ func witnesses(rng *rand.Rand) map[uint16][][]byte {
 	a2[0] = 255
 	add(0x0102, a2)
 	n1210 := make([]byte, 7+16+32)
-	n1210 = append(n1210, 0, 2, 5) // count 2, first name length 5 ...
-	add(0x1210, append(n1210, []byte("abcde")...)) // ... fills the body
+	n1210 = append(n1210, 0, 2, 5) // count 2; the first item (name length 5, name, size) ...
+	add(0x1210, append(append(n1210, []byte("abcde")...), 0, 0, 0, 1)) // ... ends the body: nothing left for item 2
 	add(0x1210, append(make([]byte, 7+16+32), 0, 255))
 	add(0x1211, []byte{250, 1, 2, 3, 4, 5})
 	add(0x1212, []byte{5, 'a', 'b', 'c', 'd', 'e', 0, 0, 0, 0})
@@ -521,7 +539,8 @@ func genAtt(c *Ctx, budget time.Duration) {
 		// 0x1210 bodies
 		base := attPrefixLen(d)
 		b := make([]byte, base)
-		h("1210-name-fills-body", Frame808(0x1210, v, bcd, 1, append(append(b[:base:base], 0, 2, 5), []byte("abcde")...)))
+		h("1210-name-fills-body", Frame808(0x1210, v, bcd, 1, append(append(append(b[:base:base], 0, 2, 5), []byte("abcde")...), 0, 0, 0, 1)))
+		h("1210-second-item-cut", Frame808(0x1210, v, bcd, 1, append(append(append(b[:base:base], 0, 3, 5), []byte("abcde")...), 0, 0, 0, 1, 9, 'x', 0, 0, 0)))
 		h("1210-count-255", Frame808(0x1210, v, bcd, 1, append(b[:base:base], 0, 255)))
 		h("1210-short", Frame808(0x1210, v, bcd, 1, make([]byte, 10)))
 		h("1210-empty", Frame808(0x1210, v, bcd, 1, nil))
@@ -658,7 +677,31 @@ func c10(c *Ctx) {
 	if os.Getenv("VERIF_C10_ONLY") != "808" {
 		genAtt(c, batt)
 	}
-	c.Extra["children_restarted"] = 0
+	if !c.Quick() && os.Getenv("VERIF_C10_ONLY") == "" {
+		memory808(c)
+	}
+}
+
+// memory808 (thorough tier only): the resource side the model does not see.  A fresh server under an
+// address-space limit of 4 GiB (ulimit -v) is first shown to serve 50 "packet 1 of 65535" frames, then is
+// sent 6000 of them (126 KB): completePack allocates a 65535-slot table per message id and keeps it for 60 s.
+func memory808(c *Ctx) {
+	control := RunOp("contain808mem 4096 50")
+	c.Eval("contain808mem 4096 50", false)
+	if !strings.Contains(control, "alive=1 g1=1 g2=1 a=1") {
+		c.Count("808/memory-control-failed")
+		c.Extra["memory_control"] = Trunc(control, 400)
+		return
+	}
+	req := "contain808mem 4096 6000"
+	ans := RunOp(req)
+	c.Eval(req, true)
+	c.Count("808/memory")
+	if field(ans, "alive") != "1" || field(ans, "g2") != "1" || field(ans, "a") != "1" {
+		c.Violate(Violation{Signature: "C10/808/memory-exhaustion",
+			What:  "one client ends the JT808 server process by exhausting its address space: 6000 frames of 21 bytes, each packet 1 of 65535 of another message id, make completePack allocate 6000 tables of 65535 slots (1.5 MB each, kept 60 s)",
+			Input: req, Observed: Trunc(ans, 900), Required: "ok alive=1 g1=1 g2=1 a=1 (the same server serves 50 such frames)"})
+	}
 }
 
 // gen808ParseAll: the same witnesses against a server whose handlers Parse every body (README pattern)
